@@ -139,6 +139,22 @@ Definition code_from (d : dval) : res code :=
   | _ => Err EType
   end.
 
+(* CodedConcept.from_dataset ALONE (no accessor read): exactly one of the three
+   code value attributes, then Code Meaning, then Coding Scheme Designator -
+   the last two whichever attribute carries the code value *)
+Definition carriers : list string := ["CodeValue"; "LongCodeValue"; "URNCodeValue"].
+Definition n_carriers (a : attrs) : Z :=
+  fold_right (fun k n => b2z (has k a) + n) 0 carriers.
+Definition code_accept (d : dval) : res unit :=
+  match d with
+  | DSet a =>
+      if negb (n_carriers a =? 1) then Err EAttr
+      else if negb (has "CodeMeaning" a) then Err EAttr
+      else if negb (has "CodingSchemeDesignator" a) then Err EAttr
+      else Ok tt
+  | _ => Err EType
+  end.
+
 (* seq[0] parsed as a coded concept *)
 Definition code_first (v : dval) : res code :=
   match v with
@@ -1002,7 +1018,9 @@ Definition run_code (c : code) : val :=
   | Ok _ => VL [VS (code_kw (c_value c)); ds_val (code_ds c); vres obs_code (code_from (code_ds c));
                 obs_code (from_code c)]
   end.
-Definition run_code_from (d : dval) : val := vres obs_code (code_from d).
+(* kind 'code_from': from_dataset alone, then from_dataset + the four accessors *)
+Definition run_code_from (d : dval) : val :=
+  VL [vstatus (code_accept d); vres obs_code (code_from d)].
 
 (* kinds 'scoord_count', 'scoord3d' *)
 Definition run_scoord (g : g2) (pts : list (list Q)) : val :=
